@@ -57,8 +57,14 @@ def make_spec(case):
         else:
             spec = rtamt.StlDenseTimeSpecification(semantics=_semantics(sem))
     elif mon == 'ltl-discrete':
-        from rtamt.spec.ltl.discrete_time.specification import LtlDiscreteTimeSpecification
-        spec = LtlDiscreteTimeSpecification()
+        # the LTL front end (parser + pastifier) behind the generic specification class
+        from rtamt.syntax.ast.parser.ltl.specification_parser import LtlAst
+        from rtamt.pastifier.ltl.pastifier import LtlPastifier
+        from rtamt.spec.abstract_specification import AbstractOfflineOnlineSpecification
+        from rtamt.semantics.stl.discrete_time.offline.interpreter import StlDiscreteTimeOfflineInterpreter
+        from rtamt.semantics.stl.discrete_time.online.interpreter import StlDiscreteTimeOnlineInterpreter
+        spec = AbstractOfflineOnlineSpecification(LtlAst(), StlDiscreteTimeOfflineInterpreter(), StlDiscreteTimeOnlineInterpreter(),
+                                                  pastifier=LtlPastifier())
     else:
         raise ValueError(mon)
     return spec
@@ -88,6 +94,8 @@ def canon_val(v):
 
 
 def classify(exc):
+    if type(exc).__name__ == '_Timeout':
+        raise exc
     if isinstance(exc, RTAMTException):
         return {'status': 'rtamt', 'msg': str(exc)[:200]}
     return {'status': 'crash', 'kind': type(exc).__name__, 'msg': str(exc)[:200]}
